@@ -3,6 +3,8 @@ CONSTANTS
   ROT = 4
   LEN = 2
   MAC = 16
+  ActLen = 50
+  Act3Len = 66
   MaxSize = 65535
   ReaderStops = FALSE
   TrackUsed = FALSE
